@@ -182,7 +182,9 @@ IsNonZero(v) == v # RZero
 \* (inf / nan are recorded as +-(2^29 + 1): inf - inf is not zero; a finite number >= 2^13 is recorded as +-2^29,
 \* only its sign is kept - no exact value of the families is that large)
 Finite(v) == Abs(v[1]) <= 536870912
-ConstantZeroOK(u) == \A f \in 1..NF :
+\* (not demanded on the faces `sing` where the two-point transmissibility is undefined - FvOracle!Singular: whatever
+\* the floating-point evaluation of 1 / (1/t1 + 1/t2) gives there - 1e14, inf, nan - is an artefact; counted)
+ConstantZeroOK(u, sing) == \A f \in (1..NF) \ sing :
   LET v == SelectSeq(RowVals(u, f), IsNonZero) IN
     IF \E i \in 1..Len(v) : ~Finite(v[i]) THEN FALSE
     ELSE IF Len(v) = 0 THEN TRUE
@@ -244,7 +246,7 @@ TpfaSub(E, small, k) ==
     IF u.raised # "" THEN CheckK("Discretises", k, FALSE)
     ELSE
       LET H == IF small THEN Halves(G, E, u.kc) ELSE <<>>
-          sing == IF small /\ HalfOK(H) THEN Singular(H) ELSE {}
+          sing == IF small /\ HalfSmall(H) THEN Singular(H) ELSE {}
           refok == small /\ HalfOK(H) /\ sing = {}
           T == IF refok THEN TpfaT(H) ELSE <<>>
           korth == refok /\ KOrthogonal(G, E, u.kc)
@@ -254,7 +256,7 @@ TpfaSub(E, small, k) ==
       IN
         /\ CheckK("Symmetric", k, SymmetricOK(X))
         /\ CheckK("SingleValued", k, SingleValuedOK(E, X))
-        /\ CheckK("ConstantZero", k, ConstantZeroOK(u))
+        /\ CheckK("ConstantZero", k, ConstantZeroOK(u, sing))
         /\ axis => Assert(korth, <<"tensor grid with diagonal K is not K-orthogonal / not small", ci, k>>)
         /\ refok => Assert(TpfaLaws(G, E, u.kc, u.bc, T, flds, axis), <<"TpfaRef violates a model law", ci, k>>)
         /\ (~refok) => TellK("noref", k, 1)
